@@ -2,6 +2,7 @@ package e2
 
 import (
 	"fmt"
+	"gitee.com/xuesongtao/protoc-go-valid/valid"
 	"sort"
 	"strings"
 
@@ -234,6 +235,22 @@ func Run(p *Plan, ch simsync.Chooser) *Outcome {
 					cl.Exec()
 				}
 				checkHanded()
+			}
+		})
+	}
+	if p.Bystander > 0 {
+		own := valid.NewLRU(2)
+		own.SetDelCallBackFn(func(k, v interface{}) {})
+		sim.Go("bystander", func() {
+			for i := 0; i < p.Bystander; i++ {
+				switch i % 4 {
+				case 0, 1:
+					own.Store("b"+fmt.Sprint(i%5), i)
+				case 2:
+					own.Load("b" + fmt.Sprint((i+3)%5))
+				case 3:
+					own.Delete("b" + fmt.Sprint((i+1)%5))
+				}
 			}
 		})
 	}
